@@ -86,6 +86,28 @@ def lanes(chk, db, rule):
         widths.add(size)
         chk.decide(ok, rule, where, '%s: %s' % (label, '; '.join(why) if why else 'byte k of the value stored at buffer[pos+offset+k], k=0..%d' % (size - 1)),
                    function=label)
+    # the bulk Write<T> of every element type must resolve (overload resolution, read off the resolved callee) to the lane
+    # overload of exactly sizeof(T) bytes: a missing overload silently promotes the element to a wider lane
+    bulk = [f for f in methods if f['n'] == 'Write' and 'body' in f and len(f['params']) == 2]
+    seen = set()
+    for f in bulk:
+        t = f['params'][0]['t'].replace('const ', '').replace('*', '').strip()
+        if t in seen:
+            continue
+        seen.add(t)
+        calls = [y for y in ir.walk(f['body']) if y.get('k') == 'call' and (y.get('callee') or {}).get('n') == 'WriteElement']
+        where = facts.site(f)
+        if len(calls) != 1 or t not in rw.SIZEOF:
+            chk.unanalysable(rule, where, 'bulk Write<%s>: expected one WriteElement call, found %d' % (t, len(calls)))
+            continue
+        callee = db.callee(f, calls[0]) if hasattr(db, 'callee') else None
+        if callee is None:
+            callee = db.fn_by_id(f, calls[0]['callee']['fid'])
+        lane = callee['params'][0]['t'] if callee and callee.get('params') else None
+        ok = lane is not None and rw.SIZEOF.get(lane) == rw.SIZEOF[t]
+        chk.decide(ok, rule, where, 'bulk Write<%s> stores each element through WriteElement(%s): %s' % (
+            t, lane, 'same width' if ok else 'lane of %s bytes for an element of %d' % (rw.SIZEOF.get(lane), rw.SIZEOF[t])),
+            function='ConstexprBufferWriter::Write<%s>' % t)
     if not {1, 2, 4, 8} <= widths:
         chk.unanalysable(rule, 'nop/utility/constexpr_buffer_writer.h', 'WriteElement widths analysed: %s, need 1,2,4,8' % sorted(w for w in widths if w))
 
